@@ -90,10 +90,66 @@ NOTES = {
  "C19-j": (5, "internal timers kept in a HashMap (iteration order decides ties)", "two machines on a side with timers expiring at the same instant"),
  "C20-i": (5, "second action for a 'seen' machine dropped, seen-set in a u64 (machine % 64)", "65 or more machines, machines k and k+64 acting in one call"),
  "C20-j": (5, "machines of a running instance reused through a static cache keyed by length and first 256 bytes", "a second maybenot_start while another instance lives, strings equally long sharing the first 256 bytes"),
+ "C01-k": (6, "action-limit check evaluated lazily after update_counter (below_limit_blocking still indexes the current state)", "entering a BlockOutgoing state whose counter update zeroes a counter with CounterZero -> END"),
+ "C01-l": (6, "the two counter checks of State::validate merged into one match (only counter A validated when both are set)", "a state with both counters and an invalid distribution on B"),
+ "C02-k": (6, "per-call slot reset skipped when a scheduled-actions counter reads 0 (decremented for an empty slot)", "two machines; A schedules, B's limit runs out with an empty slot, next call exhausts A's budget"),
+ "C02-l": (6, "PaddingSent for a machine in END returns before the framework-wide count", "a machine schedules padding, ends, then its PaddingSent is reported; framework fraction deciding later"),
+ "C03-k": (6, "a blocking fraction of exactly 1.0 treated as no limit", "fraction 1.0, allowance used up, blocked share >= 1"),
+ "C03-l": (6, "the stored current time only ever moves forward", "a call with an earlier timestamp than a previous call"),
+ "C04-k": (6, "24 h cap applied by an integer comparison in whole seconds", "a sampled timeout or duration strictly between 24 h and 24 h + 1 s"),
+ "C04-l": (6, "slot reset up to a u16 high-water mark", "more than 65535 machines"),
+ "C05-k": (6, "padding fraction compared by multiplication instead of division", "a share exactly on a limit where frac*total rounds up (0.07 at 7/100, 0.28 at 7/25)"),
+ "C05-l": (6, "answered-signal edge flattened into a match that drops the All case", "a lone signaller and two or more machines answering"),
+ "C06-k": (6, "BlockingBegin returns early for an unknown originator id", "a BlockingBegin whose id is out of range for this instance"),
+ "C06-l": (6, "per-machine cache (OnceLock) of the events any state reacts to, never refreshed", "a machine edited through its public states field after it (or its clone) processed an event"),
+ "C07-k": (6, "at the limit a pending Cancel is not withdrawn", "one batch entering a Cancel state, then a limited state, then the completion that exhausts the limit"),
+ "C07-l": (6, "replace-while-active special case ignores the state limit", "replace=true, exhausted or zero limit, self-transitions while blocking is active"),
+ "C08-k": (6, "CounterZero guard as 16-bit call stamps", "the 65535th call on an instance, or a zeroing 65536 calls after the previous one"),
+ "C08-l": (6, "copy operand routed through f64", "a copied counter value not representable in f64 (2^53+1, u64::MAX-1)"),
+ "C09-k": (6, "signal delivery stops scanning once every running machine is served (live counter)", "three machines, a receiver that ends on the Signal, a running receiver with a higher index"),
+ "C09-l": (6, "answered-signal edge only checked if some receiver reported no state change", "every receiver changes state and one answers through CounterZero -> SIGNAL"),
+ "C10-k": (6, "blocking clock started at the originating machine inside the per-machine loop", "a machine before the blocker whose BlockingBegin transition leads to a replace block while over budget"),
+ "C10-l": (6, "returned iterator cut at an incrementally kept action count (decremented for an empty slot)", "a batch scheduling for M, then a completion taking a neighbour's limit to 0 with an empty slot"),
+ "C11-k": (6, "growing decompression buffer whose stop test assumes whole chunks", "a bomb whose stream consumes more than 32 KiB of input before 1 MiB of output"),
+ "C11-l": (6, "`write` instead of `write_all` on the zlib encoder", "a large, poorly compressible valid machine"),
+ "C12-k": (6, "targets sorted; only the largest is bounds-checked", "a list with a pseudo-state and a missing real state"),
+ "C12-l": (6, "shared scratch vector for duplicate detection grown and never shrunk", "Framework::new with a big machine before a small one whose target lies between the two sizes"),
+ "C13-k": (6, "Uniform accepts low above high by about one ulp", "bounds such as 0.1+0.2 vs 0.3 (gen_range panics)"),
+ "C13-l": (6, "maximum applied when `max != 0.0`", "a negative max"),
+ "C14-k": (6, "WindowCount fast path after an idle window does not record the packet", "bursts that all follow pauses of more than 100 ms"),
+ "C14-l": (6, "trace lines read with take_while(non-empty)", "a trace with an empty line before further records"),
+ "C15-k": (6, "blocked replace padding pops a normal packet queued behind it when sent", "non-bypass blocking, replace padding with nothing to replace, a normal packet queued before the block ends"),
+ "C15-l": (6, "trace lines read with map_while (stops at the first short line)", "a trace with an empty or short line before further records"),
+ "C16-k": (6, "expiry branch clears every side whose blocking is due", "client and server blocking expiring at exactly the same instant"),
+ "C16-l": (6, "bypass flag only assigned on replace or when no blocking is active", "bypassable blocking extended by a non-bypass non-replace block, then a bypass padding"),
+ "C17-k": (6, "a non-replace BlockOutgoing does not overwrite a pending one that would end later", "the same machine re-issuing a non-replace block while its previous action timer runs"),
+ "C17-l": (6, "due test at microsecond resolution with subsec_micros (whole seconds ignored)", "two pending action timers a whole number of seconds apart and a Cancel or newer action in between"),
+ "C18-k": (6, "all timers due at an instant fired in one batch", "two same-side timers expiring at the same instant, the first TimerEnd making the other machine cancel or replace"),
+ "C18-l": (6, "`return` in the UpdateTimer guard clause leaves the loop over the returned actions", "two machines on a side, the lower one returning an ignored UpdateTimer"),
+ "C19-k": (6, "pop_blocking always pops the blocking heap during non-bypassable blocking", "a non-bypassable block, one held normal packet, two bypass+replace paddings (unwrap panic)"),
+ "C19-l": (6, "end-of-loop debug! line unwraps the last recorded event", "debug logging enabled, a filter set, an output trace still empty after an iteration"),
+ "C20-k": (6, "C API drops events no machine has a transition for, including TimerBegin", "no TimerBegin transition anywhere and a limited state counting TimerBegin completions"),
+ "C20-l": (6, "start time taken from a process-wide OnceLock", "a second instance started well after the first, blocking fraction deciding"),
 }
 
 # id: history of what the checks did (only where the first run was not a plain catch by the property's own check)
-HISTORY = {}
+HISTORY = {
+ "C01-h": ("first run: caught by C12 only (validation hole); after the accepted-machine run stage: C01 and C12", ["C01", "C12"]),
+ "C03-h": ("first run: missed (no fraction in (0, EPSILON] in the pools); after the minuscule fractions: C03 monitor, C05", ["C03", "C05"]),
+ "C06-g": ("first run: C05 only; after the framework-level draw monitor: C06", ["C06", "C05"]),
+ "C11-h": ("the pipeline could not confirm it (the demonstration needs --features parsing); confirmed by hand; C11 monitor: parse_v1_machine panicked", ["C11"]),
+ "C13-g": ("first run: missed; after Uniform over zeros of opposite sign: C13 and C01 (panic)", ["C13", "C01"]),
+ "C19-h": ("first run: missed (every run parsed its own queue); after the repeat run went through clone_from/clone: C19", ["C19"]),
+ "C20-g": ("first run: missed (the byte-level model cannot see the wall clock); after the wall-clock lockstep scenarios: C20", ["C20"]),
+ "C01-j": ("first run: C05 only; after copies in the observed run / copy-panicked: C01", ["C01", "C05"]),
+ "C02-i": ("first run: C05 only; after copies in the observed run: C02 monitor", ["C02", "C05"]),
+ "C02-j": ("first run: missed; after the alias generator: C02 monitor, C05", ["C02", "C05"]),
+ "C03-j": ("first run: missed (std::time impl not exercised by the virtual clock); after the default-clock run: C03, C05", ["C03", "C05"]),
+ "C04-j": ("first run: C05 only; after copies in the observed run: C04 monitor", ["C04", "C05"]),
+ "C06-i": ("first run: missed (lists of at most 6 entries); after long lists: C06, C05", ["C06", "C05"]),
+ "C08-i": ("first run: C05 only; after wide/alias in C08: C08 monitor", ["C08", "C05"]),
+ "C09-i": ("first run: missed (at most 257 machines, no high-index signaller); after the high-index signaller: C09 monitor, C05", ["C09", "C05"]),
+}
 
 
 def main():
